@@ -397,18 +397,32 @@ class CoreCheck:
 
     # ---- 3. trace validation of real executions
     def validate_profile(self, profile, runs, monitors_only=False, extra_monitors=(), extra_fields=(), known=()):
-        trace = os.path.join(self.wd, f"{profile}.ndjson")
-        lines, panics = simtrace(profile, runs, self.seed, trace)
-        diffs, viols, done = validate_trace(self.sd, trace, self.wd, monitors_only=monitors_only)
+        # large samples are generated and validated in chunks (the validator holds one file in memory)
+        CH = 400
+        tot = {"lines": 0, "panics": 0, "diffs": 0, "viols": 0, "mine": 0, "other": 0}
+        kf_hits, open_kf, trace = 0, {}, None
+        for ci, start in enumerate(range(0, runs, CH)):
+            n = min(CH, runs - start)
+            trace = os.path.join(self.wd, f"{profile}.{ci}.ndjson" if runs > CH else f"{profile}.ndjson")
+            lines, panics = simtrace(profile, n, self.seed + 7919 * ci, trace, timeout=1800)
+            diffs, viols, done = validate_trace(self.sd, trace, self.wd, monitors_only=monitors_only,
+                                                timeout=max(600, lines // 100))
+            mine_v = [x for x in viols if self.pid in MONITOR_PROPS.get(x["prop"], []) or x["prop"] in extra_monitors]
+            mine_d = [] if monitors_only else [x for x in diffs if self.pid in props_of_diff(x)
+                                               or diff_field(x).rsplit(".", 1)[0] in extra_fields]
+            tot["lines"] += lines
+            tot["panics"] += panics
+            tot["diffs"] += done["diffs"]
+            tot["viols"] += done["viols"]
+            tot["mine"] += len(mine_v) + len(mine_d)
+            tot["other"] += len(viols) - len(mine_v) + len(diffs) - len(mine_d)
+            k, open_kf = self._report(trace, profile if runs <= CH else f"{profile}.{ci}", "", mine_v + mine_d, known)
+            kf_hits += k
+        lines, other = tot["lines"], tot["other"]
         self.traces += runs
         self.trace_events += lines
-        mine_v = [x for x in viols if self.pid in MONITOR_PROPS.get(x["prop"], []) or x["prop"] in extra_monitors]
-        mine_d = [] if monitors_only else [x for x in diffs if self.pid in props_of_diff(x)
-                                           or diff_field(x).rsplit(".", 1)[0] in extra_fields]
-        other = len(viols) - len(mine_v) + len(diffs) - len(mine_d)
-        self.profiles[profile] = {"runs": runs, "events": lines, "diffs": done["diffs"], "viols": done["viols"],
-                                  "attributed_to_this_property": len(mine_v) + len(mine_d), "panics": panics}
-        kf_hits, open_kf = self._report(trace, profile, "", mine_v + mine_d, known)
+        self.profiles[profile] = {"runs": runs, "events": lines, "diffs": tot["diffs"], "viols": tot["viols"],
+                                  "attributed_to_this_property": tot["mine"], "panics": tot["panics"]}
         if known and profile.startswith("kf_") and kf_hits == 0 and open_kf:
             self.notes.append(f"{profile}: the scripted history of {sorted(open_kf)} no longer violates the property "
                               f"- known_findings.json is out of date")
